@@ -77,12 +77,13 @@ impl Http2FingerprintExtractor {
         self.buffer.extend_from_slice(data);
 
         // Skip HTTP/2 connection preface
-        let start_offset =
-            if self.parsed_offset == 0 && self.buffer.starts_with(HTTP2_CONNECTION_PREFACE) {
-                HTTP2_CONNECTION_PREFACE.len()
-            } else {
-                self.parsed_offset
-            };
+        // Frames are parsed from the start of the connection on every call: the fingerprint
+        // covers every frame received so far, not only those completed by the latest chunk.
+        let start_offset = if self.buffer.starts_with(HTTP2_CONNECTION_PREFACE) {
+            HTTP2_CONNECTION_PREFACE.len()
+        } else {
+            0
+        };
 
         let frame_data = &self.buffer[start_offset..];
 
